@@ -90,6 +90,9 @@ Qed.
 
 (* ---- the head of the queue when nothing is processable ------------------------------- *)
 Definition fresh (p : N) (s : state) : Prop := forall h, lacks_mem p h (lacks s) = false.
+(* weaker: the queue does not believe p to lack any block that is still needed *)
+Definition avail (p : N) (t : trace) : Prop :=
+  forall h, In h (Uof t) -> lacks_mem p (h_hash h) (lacks (t_state t)) = false.
 
 Lemma head_is_next g U s :
   SI g U s -> pend s = [] -> U <> [] -> count_proc (cache s) = O ->
@@ -138,13 +141,14 @@ Qed.
 (* Reserve for a fresh peer when slot 0 is not complete: either slot 0 completes
    (empty block) or the request contains the next block *)
 Lemma reserve_head g U p s h0 q :
-  SI g U s -> pend s = [] -> fresh p s -> count_proc (cache s) = O ->
+  SI g U s -> pend s = [] -> (forall h, In h U -> lacks_mem p (h_hash h) (lacks s) = false) ->
+  In h0 U -> count_proc (cache s) = O ->
   tqueue s = h0 :: q -> h_num h0 = offset s ->
   let res := reserve empty_root p 1 (N.of_nat cache_len) s in
   snd (snd res) = false ->
   cslot (fst res) 0 \/ exists send, fst (fst (snd res)) = Some send /\ In h0 send.
 Proof.
-  intros Hsi Hp Hf Hcp Hq Hn res.
+  intros Hsi Hp Hf Hh0U Hcp Hq Hn res.
   pose proof (si_c _ _ _ _ _ Hsi) as Hc.
   assert (Hlen : length (cache s) = cache_len) by apply (c_len _ _ _ _ _ Hc).
   assert (Hspace : (1 <= result_slots s (N.of_nat cache_len))%Z).
@@ -174,7 +178,7 @@ Proof.
     destruct (reserve_loop _ _ _ _ _ _ _ _ _ _) as [s'|s' send skip pr]; simpl in *; auto.
     destruct send; simpl; auto.
   - assert (Hlk : lacks_mem p (h_hash h0) (lacks s1) = false).
-    { destruct (ensure_slot_frame s h0 0) as (_&_&_&_&_&_&Hl&_). fold s1 in Hl. rewrite Hl. apply Hf. }
+    { destruct (ensure_slot_frame s h0 0) as (_&_&_&_&_&_&Hl&_). fold s1 in Hl. rewrite Hl. apply Hf; auto. }
     rewrite Hlk.
     pose proof (reserve_loop_send p 1 q s1 (0 + 1)%Z (result_slots s (N.of_nat cache_len)) ([] ++ [h0]) [] false) as H.
     destruct (reserve_loop _ _ _ _ _ _ _ _ _ _) as [s'|s' send skip pr]; simpl in *; [discriminate|].
@@ -290,7 +294,7 @@ Definition finished (t t' : trace) : Prop :=
 Lemma finish_aux : forall n t,
   TI t -> NoDup (map h_hash (t_scheduled t)) ->
   (forall h, In h (t_scheduled t) -> derive (body h) = h_root h) ->
-  pend (t_state t) = [] -> fresh p (t_state t) -> length (Uof t) = n ->
+  pend (t_state t) = [] -> avail p t -> length (Uof t) = n ->
   exists ops', legal t ops' /\ Forall only_p ops' /\ finished t (fold_left stept ops' t).
 Proof.
   induction n as [n IHn] using lt_wf_ind. intros t HT Hh Hb Hp Hf Hn.
@@ -299,7 +303,7 @@ Proof.
   set (n := S n') in *.
   (* A: slot 0 is complete: Results releases at least one block *)
   assert (HA : forall t1, TI t1 -> t_scheduled t1 = t_scheduled t -> pend (t_state t1) = [] ->
-                 fresh p (t_state t1) -> length (Uof t1) = n -> (0 < count_proc (cache (t_state t1)))%nat ->
+                 avail p t1 -> length (Uof t1) = n -> (0 < count_proc (cache (t_state t1)))%nat ->
                  exists ops', legal t1 ops' /\ Forall only_p ops' /\ finished t1 (fold_left stept ops' t1)).
   { intros t1 HT1 Hg1 Hp1 Hf1 Hn1 Hc1.
     set (t2 := stept t1 Results).
@@ -315,6 +319,9 @@ Proof.
     destruct (IHn _ Hn2 t2 HT2) as (ops'' & L2 & O2 & G2 & U2); auto.
     - rewrite E2. simpl. congruence.
     - rewrite E2. simpl. rewrite Hg1. auto.
+    - intros h Hh'. rewrite E2 in Hh' |- *. unfold Uof in Hh'. cbn [t_released t_scheduled] in Hh'.
+      rewrite app_length, skipn_add in Hh'. apply incl_skipn in Hh'.
+      cbn [t_state]. unfold results. cbn [fst lacks]. apply Hf1. exact Hh'.
     - exists (Results :: ops''). split; [|split; [|split]].
       + simpl. split; auto.
       + constructor; simpl; auto.
@@ -334,7 +341,7 @@ Proof.
   { apply (TI_step derive empty_root derive_nil); auto. split; auto. fold t1. rewrite E1. simpl. auto. }
   pose proof (reserve_SI derive empty_root derive_nil cache_len _ _ p 1 (N.of_nat cache_len) _ Hsi) as HR.
   specialize (HR ltac:(lia)). cbv zeta in HR. destruct HR as (Hsi1 & He & Ho1 & Hl1 & Hreq).
-  pose proof (reserve_head _ _ p _ h0 q Hsi Hp Hf Hcp Hq Hnum) as HH. cbv zeta in HH. specialize (HH He).
+  pose proof (reserve_head _ _ p _ h0 q Hsi Hp Hf Hh0U Hcp Hq Hnum) as HH. cbv zeta in HH. specialize (HH He).
   set (res := reserve empty_root p 1 (N.of_nat cache_len) (t_state t)) in *.
   assert (HU1 : Uof t1 = Uof t) by (rewrite E1; reflexivity).
   assert (Hg1 : t_scheduled t1 = t_scheduled t) by (rewrite E1; reflexivity).
@@ -363,8 +370,9 @@ Proof.
     destruct (HA t2 HT2) as (ops'' & L2 & O2 & G2 & U2).
     + rewrite E2. simpl. auto.
     + rewrite E2, Hs1. simpl. rewrite Hp2, Hp1. simpl. rewrite N.eqb_refl. reflexivity.
-    + rewrite E2, Hs1. unfold fresh. simpl. rewrite Hl2, Hl1; auto.
-      destruct send; simpl; congruence.
+    + intros h Hh'. rewrite E2 in Hh' |- *. unfold Uof in Hh'. cbn [t_released t_scheduled] in Hh'.
+      rewrite E1 in Hh'. cbn [t_released t_scheduled] in Hh'.
+      cbn [t_state]. rewrite Hs1, Hl2, Hl1; [apply Hf; exact Hh'|destruct send; simpl; congruence].
     + rewrite E2. unfold Uof in *. simpl. rewrite Hg1. rewrite E1. simpl. auto.
     + rewrite E2, Hs1. simpl. apply count_proc_pos. exact Hc2.
     + exists (o1 :: o2 :: ops''). split; [|split; [|split]].
@@ -377,7 +385,7 @@ Proof.
     destruct HH as [H0|(send' & [=] & _)].
     destruct (HA t1 HT1) as (ops'' & L2 & O2 & G2 & U2); auto.
     + rewrite Hs1. auto.
-    + rewrite Hs1. unfold fresh. rewrite Hl1. auto.
+    + intros h Hh'. rewrite HU1 in Hh'. rewrite Hs1, Hl1. apply Hf; auto.
     + rewrite HU1. auto.
     + rewrite Hs1. apply count_proc_pos. exact H0.
     + exists (o1 :: ops''). split; [|split; [|split]].
@@ -391,10 +399,10 @@ Qed.
    then ask one peer that lacks nothing and answers with the true bodies; after
    finitely many Reserve / Deliver / Results steps every accepted block has been
    handed to the importer *)
-Theorem completion ops :
+Theorem completion_avail ops :
   legal_history derive empty_root cache_len start ops ->
   let t := run derive empty_root cache_len start ops in
-  fresh p (t_state t) ->
+  avail p t ->
   (forall h, In h (t_scheduled t) -> derive (body h) = h_root h) ->
   exists ops',
     legal t ops' /\ Forall only_p ops' /\
@@ -425,6 +433,19 @@ Proof.
       assert (Hlen : length (Uof t') = 0%nat) by (rewrite U; reflexivity).
       unfold Uof in Hlen. rewrite skipn_length in Hlen.
       rewrite Hpre, <- Hg'. apply firstn_all2. lia.
+Qed.
+
+Theorem completion ops :
+  legal_history derive empty_root cache_len start ops ->
+  let t := run derive empty_root cache_len start ops in
+  fresh p (t_state t) ->
+  (forall h, In h (t_scheduled t) -> derive (body h) = h_root h) ->
+  exists ops',
+    legal t ops' /\ Forall only_p ops' /\
+    let t' := run derive empty_root cache_len start (ops ++ ops') in
+    t_scheduled t' = t_scheduled t /\ map r_hdr (t_released t') = t_scheduled t.
+Proof.
+  intros Hl t Hf Hb. apply completion_avail; auto. intros h _. apply Hf.
 Qed.
 
 End Progress.
